@@ -11,7 +11,7 @@ import Uquic.Model.ConnID.Generator
 namespace Uquic.Model.ConnID
 
 inductive Handler where
-  | conn                          -- the live connection
+  | conn (c : Nat)                -- live connection number c (the connection under study is 0)
   | closedLocal (k : Nat)         -- `closedLocalConn` number k (index into `counters`)
   | closedRemote                  -- `closedRemoteConn`
 deriving Repr, DecidableEq
@@ -21,8 +21,8 @@ structure Routing where
   tokens : List Bytes := []
   /-- packets seen by each `closedLocalConn` -/
   counters : List Nat := []
-  /-- pending `time.AfterFunc` timers: (deadline, ids), in creation order -/
-  timers : List (Int × List Bytes) := []
+  /-- pending `time.AfterFunc` timers: (deadline, ids, the closed stand-in installed for them), in creation order -/
+  timers : List (Int × List Bytes × Handler) := []
   now : Int := 0
 deriving Repr, DecidableEq
 
@@ -38,21 +38,28 @@ def setH (id : Bytes) (h : Handler) : List (Bytes × Handler) → List (Bytes ×
 def Routing.add (r : Routing) (id : Bytes) : Routing :=
   match lookupH id r.handlers with
   | some _ => r
-  | none => { r with handlers := r.handlers ++ [(id, .conn)] }
+  | none => { r with handlers := r.handlers ++ [(id, .conn 0)] }
 
 /-- `Remove` -/
 def Routing.remove (r : Routing) (id : Bytes) : Routing :=
   { r with handlers := r.handlers.filter fun kv => kv.1 ≠ id }
 
-def removeAllIDs (ids : List Bytes) (hs : List (Bytes × Handler)) : List (Bytes × Handler) :=
-  hs.filter fun kv => ¬ ids.contains kv.1
+/-- the expiry callback: `for _, id := range ids { if h.handlers[id] == handler { delete(h.handlers, id) } }` —
+    only entries that still are the closed connection's own stand-in are removed.
+    (`closedRemoteConn` is a zero-size struct: every `&closedRemoteConn{}` is the same pointer, hence no identity.) -/
+def removeOwn (ids : List Bytes) (hd : Handler) (hs : List (Bytes × Handler)) : List (Bytes × Handler) :=
+  hs.filter fun kv => ¬ (ids.contains kv.1 ∧ kv.2 = hd)
+
+/-- `t.handlers[srcConnID] = conn` in `Transport.dial`: another connection `c` takes (or overwrites) the entry -/
+def Routing.install (r : Routing) (id : Bytes) (c : Nat) : Routing :=
+  { r with handlers := setH id (.conn c) r.handlers }
 
 /-- `ReplaceWithClosed` -/
 def Routing.replaceWithClosed (r : Routing) (ids : List Bytes) (localClose : Bool) (expiry : Int) : Routing :=
   let h : Handler := if localClose then .closedLocal r.counters.length else .closedRemote
   { r with handlers := ids.foldl (fun hs id => setH id h hs) r.handlers,
            counters := if localClose then r.counters ++ [0] else r.counters,
-           timers := r.timers ++ [(r.now + expiry, ids)] }
+           timers := r.timers ++ [(r.now + expiry, ids, h)] }
 
 /-- fake time passes: every timer that is due deletes its IDs -/
 def Routing.advance (r : Routing) (d : Int) : Routing :=
@@ -60,7 +67,7 @@ def Routing.advance (r : Routing) (d : Int) : Routing :=
   let due := r.timers.filter fun t => t.1 ≤ now
   { r with now := now,
            timers := r.timers.filter (fun t => ¬ t.1 ≤ now),
-           handlers := due.foldl (fun hs t => removeAllIDs t.2 hs) r.handlers }
+           handlers := due.foldl (fun hs t => removeOwn t.2.1 t.2.2 hs) r.handlers }
 
 def Routing.addToken (r : Routing) (t : Bytes) : Routing :=
   if r.tokens.contains t then r else { r with tokens := r.tokens ++ [t] }
@@ -73,7 +80,7 @@ def isPow2 (n : Nat) : Bool := n > 0 && (n &&& (n - 1)) == 0
 
 inductive Delivery where
   | none                          -- no handler: never reaches a connection
-  | conn                          -- handed to the live connection
+  | conn (c : Nat)                -- handed to live connection c
   | closedLocal (resend : Bool)   -- closed stand-in; retransmits CONNECTION_CLOSE or not
   | closedRemote                  -- absorbed
 deriving Repr, DecidableEq
@@ -82,7 +89,7 @@ deriving Repr, DecidableEq
 def Routing.deliver (r : Routing) (id : Bytes) : Routing × Delivery :=
   match lookupH id r.handlers with
   | none => (r, .none)
-  | some .conn => (r, .conn)
+  | some (.conn c) => (r, .conn c)
   | some .closedRemote => (r, .closedRemote)
   | some (.closedLocal k) =>
     let n := r.counters.getD k 0 + 1
